@@ -1,4 +1,5 @@
 import Proofs.ChunkLoop
+import Proofs.ReaderFirst
 import Gen.C27Cfg
 /-!
 # C27  Reported source positions are exact across chunks and line offsets
@@ -19,6 +20,8 @@ scanner's line recording and of the chunk loop of fast/repl.go + fast/interprete
 * `chunk_line_exact`         repaired loop: a byte of chunk k is reported at the line and column it has
                              in the concatenated input - for all chunk sequences (REPL loop)
 * `chunk_line_exact_reader`  the same for the chunks after the first one of EvalReader/EvalFile
+* `chunk_line_exact_reader_first`  the same for the first chunk of EvalReader/EvalFile (comments before
+                             the first token are cut, the rest of its line is blanked)
 * `chunk_line_exact_partial` unrepaired loop: the same, provided no earlier-or-same chunk has a newline
                              in the comments before its first token and no earlier chunk is Unicode-blank
 * `orig_doublecount_witness` the unrepaired loop does report DESIGN F13's input one line too far
@@ -362,6 +365,51 @@ theorem chunk_line_exact_reader (name : String) (cp : Bool) (st0 : LoopSt) (hg :
   rw [this, hl1, sum_counted (fun x _ => counted_fixed x), prefixInc_fixed]
   simp only [inputOf, Nat.add_zero, List.map_cons, List.flatten_cons, nl_append]
   congr 1
+
+theorem lineCol_append_left (a b : Bytes) (o : Nat) (h : o ≤ a.length) : lineCol (a ++ b) o = lineCol a o := by
+  rw [lineCol_eq, lineCol_eq, List.take_append_of_le_length h]
+
+/-- `chunk_line_exact_reader_first` (repaired loop, EvalReader/EvalFile): every byte at or after the
+    first token of the FIRST chunk is reported at its true line and column in the whole input,
+    although the comments before the token never reach the parser. -/
+theorem chunk_line_exact_reader_first (name : String) (cp : Bool) (st0 : LoopSt) (hg : Good st0) (hp0 : st0.parsed = [])
+    (c0 : Chunk) (post : List Chunk) (hft : c0.ft.toNat ≤ c0.src.length)
+    (hr : reaches (firstText Cfg.fixed c0).1 = true) (o : Nat) (ho1 : c0.ft.toNat ≤ o) (ho2 : o < c0.src.length) :
+    ∃ p, posOf (runChunks Cfg.fixed .reader name cp st0 (c0 :: post)) 0 o = some p ∧
+      ((runChunks Cfg.fixed .reader name cp st0 (c0 :: post)).fs.positionFor p).1 =
+        ⟨name, o - (firstText Cfg.fixed c0).2,
+          ((lineCol (inputOf (c0 :: post)) o).1 : Int), ((lineCol (inputOf (c0 :: post)) o).2 : Int)⟩ := by
+  have hin : inputOf (c0 :: post) = c0.src ++ inputOf post := by simp [inputOf]
+  rw [hin, lineCol_append_left _ _ _ (by omega)]
+  by_cases h : c0.ft > 0
+  · have hb := (bolOf_split c0.src c0.ft.toNat hft).1
+    have htext : firstText Cfg.fixed c0 =
+        (List.replicate (c0.ft.toNat - bolOf c0.src c0.ft.toNat) 32 ++ c0.src.drop c0.ft.toNat,
+          bolOf c0.src c0.ft.toNat) := by
+      simp [firstText, Cfg.fixed, h]
+    have hline : firstLine c0 = nl (c0.src.take c0.ft.toNat) := by simp [firstLine, h]
+    have hlen : (firstText Cfg.fixed c0).1.length = c0.src.length - bolOf c0.src c0.ft.toNat := by
+      rw [htext]; simp; omega
+    obtain ⟨p, h1, h2⟩ := reader_first_position Cfg.fixed name cp st0 hg hp0 c0 post hr
+      (o - bolOf c0.src c0.ft.toNat) (by rw [hlen]; omega)
+    rw [htext] at h1 h2
+    simp only at h1 h2
+    have ho : bolOf c0.src c0.ft.toNat + (o - bolOf c0.src c0.ft.toNat) = o := by omega
+    rw [ho] at h1
+    refine ⟨p, h1, ?_⟩
+    rw [h2, htext, hline, lineCol_blank_prefix c0.src c0.ft.toNat o hft ho1 (by omega)]
+    simp only
+    congr 1
+  · have htext : firstText Cfg.fixed c0 = (c0.src, 0) := by simp [firstText, h]
+    have hline : firstLine c0 = 0 := by simp [firstLine, h]
+    rw [htext] at hr
+    obtain ⟨p, h1, h2⟩ := reader_first_position Cfg.fixed name cp st0 hg hp0 c0 post (by rw [htext]; exact hr)
+      o (by rw [htext]; exact ho2)
+    rw [htext] at h1 h2
+    simp only [Nat.zero_add] at h1 h2
+    refine ⟨p, h1, ?_⟩
+    rw [h2, htext, hline]
+    simp
 
 /-! ## the tree under test -/
 
